@@ -56,7 +56,7 @@ def run(ctx):
                     n_ctor += 1
                     v = dict(f.origin_rvalue(s["rv"])[3])[L.SOFT]
                     ctx.check(const_of(v) == 0, "R04.6", "%s|entry-starts-visible" % name, "a new entry starts with the soft-delete flag cleared", f.where(b, i))
-    ctx.floor("R04.6", "entry constructors", n_ctor, 2)
+    ctx.floor("R04.6", "entry constructors", n_ctor, 1)
     ctx.check(L.soft_vis != "pub", "R04.6", "soft-delete-field-private", "the soft-delete flag is not writable from outside the crate", detail=L.soft_vis)
 
     # ---- R04.1: public delete hides before queueing ----------------------------------------------
